@@ -75,6 +75,9 @@ def scenario(jm, tmp, pre=PRE, op=OP):
                     m = lib.crash_monitor(op, ref, got, o["ci"], {o["ci"]})
                     o["real"].abandon()
                 lib.remove_files(kp)
+                if m is None:                            # fixed continuation on the reopened journal (model-free)
+                    tl = lib.judge_tail(jm, kp, img, "deleteEntriesTo")
+                    m = None if tl is None else tl[:2]
             ok = m is None and (got == ref or got == keep)      # the statement, spelled out once more
             rows.append({"k": k, "t": t, "killed": killed, "after": lib.prims_str(done, jm)[-60:],
                          "survivors": None if got is None else len(got), "is_old_or_kept": ok, "tmp_left": img[3] is not None,
